@@ -12,12 +12,11 @@ The predicted distributions of a standard tomography are affine, `p_j(x) = A_j x
 * `FastWse`, `GenWse`, `configure…` = the cached fields as an explicit state record and the call order of
   `set_from_standard_qtomography_option_data` (option, q, model, gradient model, *then* weights);
 * `invCovWeights`                = the `inverse_*_covariance` branch of `_set_weights_by_mode` incl. the slice
-  assignment `weight_matrix[:row, :col] = inv` (numpy `inv` and `num_data ** 1.5` are parameters);
+  assignment `weight_matrix[: row - 1, : col - 1] = inv` (numpy `inv` and `num_data ** 1.5` are parameters);
 * `relEnt…`                      = `relative_entropy(_vector)`, `gradient_/hessian_relative_entropy_2nd(_vector)`
   with their `eps_q/eps_p` clipping; the values `np.log(·)` are parameters (one per outcome);
 * `wre…`, `fastWre…`, `configureWre` = `WeightedRelativeEntropy` and its fast variant, incl. the fact that the
-  method the base class calls, `_set_weights_by_mode`, is not overridden there (the class defines
-  `_sets_weight_by_mode`), so option weights never reach `weights`.
+  `custom` mode calling `set_weights(option.weights)` and the fast class rebuilding `_extend_weights` there.
 -/
 namespace QM.C12
 open QM
@@ -52,11 +51,12 @@ def weightAt {m : Nat} (Ws : Option (List (Mat K m m))) (j : Nat) : Option (Opti
   | some l => (l[j]?).map some      -- IndexError when there are fewer matrices than schedules
 
 inductive Err
-  | index | broadcast | shape | noWeights
+  | index | broadcast | shape | noWeights | notSymmetric
 deriving Repr, DecidableEq
 
 def Err.toString : Err → String
   | .index => "index" | .broadcast => "broadcast" | .shape => "shape" | .noWeights => "noWeights"
+  | .notSymmetric => "notSymmetric"
 
 /-- sum over the schedules of `f j sched W_j` -/
 def sumSched {m nv : Nat} (ss : List (Sched K m nv)) (Ws : Option (List (Mat K m m)))
@@ -172,26 +172,27 @@ def extracted {m : Nat} (cov : Mat K m m) (n32 : K) : Mat K (m - 1) (m - 1) :=
   Mat.ofFn fun i j => cov.get ⟨i.val, by omega⟩ ⟨j.val, by omega⟩ + (if i = j then 1 else 0) / n32
 
 /-- one weight matrix of the `inverse_*_covariance` modes; `Ginv` is numpy's inverse of `extracted`.
-`row == 2`: only entry `[0,0]` is filled; otherwise the code assigns the `(row−1)²` inverse to the
-whole `row × col` slice, which numpy rejects (broadcast) for every `row ≥ 3`. -/
-def invCovWeight {m : Nat} (Ginv : Mat K (m - 1) (m - 1)) : Except Err (Mat K m m) :=
-  if h : m = 2 then
-    .ok (Mat.ofFn fun i j => if i.val = 0 ∧ j.val = 0 then Ginv.get ⟨0, by omega⟩ ⟨0, by omega⟩ else 0)
-  else .error .broadcast
+`row == 2`: entry `[0,0]` is filled; otherwise `weight_matrix[: row - 1, : col - 1] = inv`; last row and
+column stay zero in both branches. -/
+def invCovWeight {m : Nat} (Ginv : Mat K (m - 1) (m - 1)) : Mat K m m :=
+  if hm : m = 2 then
+    Mat.ofFn fun i j =>
+      if h : i.val = 0 ∧ j.val = 0 then Ginv.get ⟨0, by omega⟩ ⟨0, by omega⟩ else 0
+  else
+    Mat.ofFn fun i j =>
+      if h : i.val < m - 1 ∧ j.val < m - 1 then Ginv.get ⟨i.val, h.1⟩ ⟨j.val, h.2⟩ else 0
 
-def invCovWeights {m : Nat} (Ginvs : List (Mat K (m - 1) (m - 1))) : Except Err (List (Mat K m m)) :=
-  Ginvs.mapM invCovWeight
+def invCovWeights {m : Nat} (Ginvs : List (Mat K (m - 1) (m - 1))) : List (Mat K m m) :=
+  Ginvs.map invCovWeight
 
-/-- `_set_weights_by_mode` of the squared-error losses: the new value of `_weight_matrices`
-(`identity` leaves the field as it is). -/
-def weightsByMode {m : Nat} (opt : Opt K m) (cur : Option (List (Mat K m m)))
-    (Ginvs : List (Mat K (m - 1) (m - 1))) : Except Err (Option (List (Mat K m m))) :=
+/-- `_set_weights_by_mode` of the squared-error losses: `none` = the setter is not called (`identity` is
+`pass`, the field stays as it is), `some w` = `set_weight_matrices(w)` is called. -/
+def weightsByMode {m : Nat} (opt : Opt K m) (Ginvs : List (Mat K (m - 1) (m - 1))) :
+    Option (Option (List (Mat K m m))) :=
   match opt.mode with
-  | .identity => .ok cur
-  | .custom => .ok opt.weights
-  | .invSample | .invUnbiased => do
-      let ws ← invCovWeights Ginvs
-      .ok (some ws)
+  | .identity => none
+  | .custom => some opt.weights
+  | .invSample | .invUnbiased => some (some (invCovWeights Ginvs))
 
 /-- fields of the generic loss that matter for weighting -/
 structure GenWse (K : Type) (m : Nat) where
@@ -202,27 +203,47 @@ structure FastWse (K : Type) (m : Nat) where
   weightMatrices : Option (List (Mat K m m))
   extW : Option (ExtW K m)
 
-/-- `_calc_extend_weight_matrix`: nothing happens while `weight_matrices is None` -/
+/-- `_calc_extend_weight_matrix`: the block matrix of the current weight matrices, `None` when there are none -/
 def calcExt {m : Nat} (st : FastWse K m) : FastWse K m :=
   match st.weightMatrices with
-  | none => st
+  | none => { st with extW := none }
   | some ws => { st with extW := some ⟨ws⟩ }
 
-/-- `set_from_standard_qtomography_option_data` on the generic loss -/
-def configureGen {m : Nat} (st : GenWse K m) (opt : Opt K m) (Ginvs : List (Mat K (m - 1) (m - 1))) :
-    Except Err (GenWse K m) := do
-  let w ← weightsByMode opt st.weightMatrices Ginvs
-  .ok { weightMatrices := w }
+/-- the fast class's `set_weight_matrices`: store, then rebuild the cached block matrix -/
+def setWeightsFast {m : Nat} (st : FastWse K m) (w : Option (List (Mat K m m))) : FastWse K m :=
+  calcExt { st with weightMatrices := w }
+
+/-- `matrix_util.is_hermitian(W, atol)` on a real matrix: `allclose(W, W.T, atol=atol, rtol=0)` -/
+def symOk {m : Nat} (atol : K) (W : Mat K m m) : Bool :=
+  (List.finRange m).all fun i => (List.finRange m).all fun j =>
+    let d := W.get i j - W.get j i
+    !decide (atol < (if d < 0 then 0 - d else d))
+
+/-- `_validate_weight_matrices` (`if weight_matrices:` … every matrix symmetric within `Settings.get_atol()`) -/
+def validWs {m : Nat} (atol : K) (w : Option (List (Mat K m m))) : Bool :=
+  match w with
+  | none => true
+  | some l => l.all (symOk atol)
+
+/-- `set_from_standard_qtomography_option_data` on the generic loss; `ValueError` (notSymmetric) when the
+setter's validation rejects the matrices (the float inverse of the covariance modes is not exactly symmetric). -/
+def configureGen {m : Nat} (atol : K) (st : GenWse K m) (opt : Opt K m)
+    (Ginvs : List (Mat K (m - 1) (m - 1))) : Except Err (GenWse K m) :=
+  match weightsByMode opt Ginvs with
+  | none => .ok st
+  | some w => if validWs atol w then .ok { weightMatrices := w } else .error .notSymmetric
 
 /-- `set_from_standard_qtomography_option_data` on the fast loss, in the code's order:
 option, q, `set_func_prob_dists_from_standard_qt` (→ `_calc_extend_weight_matrix`), if required
-`set_func_gradient_prob_dists_from_standard_qt` (→ again), and only then `_set_weights_by_mode`. -/
-def configureFast {m : Nat} (st : FastWse K m) (opt : Opt K m) (gradRequired : Bool)
-    (Ginvs : List (Mat K (m - 1) (m - 1))) : Except Err (FastWse K m) := do
+`set_func_gradient_prob_dists_from_standard_qt` (→ again), then `_set_weights_by_mode`, whose
+`set_weight_matrices` validates, stores and rebuilds the cached matrix. -/
+def configureFast {m : Nat} (atol : K) (st : FastWse K m) (opt : Opt K m) (gradRequired : Bool)
+    (Ginvs : List (Mat K (m - 1) (m - 1))) : Except Err (FastWse K m) :=
   let st1 := calcExt st
   let st2 := if gradRequired then calcExt st1 else st1
-  let w ← weightsByMode opt st2.weightMatrices Ginvs
-  .ok { st2 with weightMatrices := w }
+  match weightsByMode opt Ginvs with
+  | none => .ok st2
+  | some w => if validWs atol w then .ok (setWeightsFast st2 w) else .error .notSymmetric
 
 end wiring
 
@@ -291,15 +312,21 @@ def calcExtWeights (st : WreState K) (lens : List Nat) : WreState K :=
   | none => st
   | some w => { st with extWeights := some ((w.zip lens).flatMap fun (a, n) => List.replicate n a) }
 
-/-- `set_from_standard_qtomography_option_data` on either relative-entropy loss: the base-class hook
-`_set_weights_by_mode` is the empty default (the subclass only defines `_sets_weight_by_mode`), so the
-option's weights are stored in the option and nowhere else. -/
-def configureWre (st : WreState K) (_optWeights : Option (List K)) (lens : List Nat) (fast gradRequired : Bool) :
+/-- `set_from_standard_qtomography_option_data` on either relative-entropy loss. `optWeights = none` is mode
+`identity` (`pass`); `some w` is mode `custom`: `set_weights(option.weights)`, and the fast class's
+`set_weights` rebuilds `_extend_weights` (the data `q` have been set before, so `prob_dists_q is not None`). -/
+def configureWre (st : WreState K) (optWeights : Option (List K)) (lens : List Nat) (fast gradRequired : Bool) :
     WreState K :=
-  if fast then
-    let st1 := calcExtWeights st lens
-    if gradRequired then calcExtWeights st1 lens else st1
-  else st
+  let st2 :=
+    if fast then
+      let st1 := calcExtWeights st lens
+      if gradRequired then calcExtWeights st1 lens else st1
+    else st
+  match optWeights with
+  | none => st2
+  | some w =>
+    let st3 := { st2 with weights := some w }
+    if fast then calcExtWeights st3 lens else st3
 
 /-- `StandardQTomographyBasedWeightedRelativeEntropy.value`: `Σ extW_i · vector_i` (`weights is not None`)
 or `Σ vector_i`; numpy multiplies elementwise, so lengths must agree (else ValueError). -/
@@ -435,19 +462,18 @@ def handle (args : List String) : Option String :=
       let n32 ← parseRat? n32
       some s!"ok {showList showRat (matList (extracted (covMat (replaceVec q eps) n) n32))}"
   -- weights in force after a sequence of configurations of a fresh object
-  | "wiring" :: which :: m :: grad :: k :: rest => do
+  | "wiring" :: which :: atol :: m :: grad :: k :: rest => do
+      let atol ← parseRat? atol
       let m ← parseNat? m
       let k ← parseNat? k
       let (rounds, rest1) ← parseRounds m k rest
       if !rest1.isEmpty then none
       if which = "generic" then
-        let r := rounds.foldlM (fun (st : GenWse Rat m) (o, g) => configureGen st o g) ⟨none⟩
-        match r with
+        match rounds.foldlM (fun (st : GenWse Rat m) (o, g) => configureGen atol st o g) ⟨none⟩ with
         | .ok st => some s!"ok {showWs st.weightMatrices}"
         | .error e => some s!"err {e.toString}"
       else if which = "fast" then
-        let r := rounds.foldlM (fun (st : FastWse Rat m) (o, g) => configureFast st o (grad = "true") g) ⟨none, none⟩
-        match r with
+        match rounds.foldlM (fun (st : FastWse Rat m) (o, g) => configureFast atol st o (grad = "true") g) ⟨none, none⟩ with
         | .ok st => some s!"ok {showWs st.weightMatrices} {showWs (st.extW.map fun e => e.blocks)}"
         | .error e => some s!"err {e.toString}"
       else none
